@@ -12,9 +12,9 @@
      Definition.invoke      Model/Expand.v (definition_invoke: match_pattern, read_argument, expand_def)
      iftrue/iffalse/ifnum/ifcase  Base/TeX/Primitives.py + TeX.processIfContent (the loop of Model/IfScan.v on real tokens;
                             Proofs/EngineProofs.v proves that [classify] maps it onto IfScan.scan_go / select)
-     TeX.readInteger        readOptionalSigns, digit run through readSequence (every `for t in self` there runs a fresh
-                            expansion loop: [next_exp]; so the token that ends a digit run without a blank is still
-                            expanded), the one-token peek after the number (fix c654904)
+     TeX.readInteger        readOptionalSigns and the first digit through the expanding iterator ([next_exp]), the digit run
+                            through readSequence (fixes 076499b, 9658874: unexpanded look, user macros expanded one step,
+                            any other control sequence ends the run untouched), the one-token peek after the number (c654904)
      relax / else / fi / an unrecognized macro : Macro.invoke with no arguments = push(self); pop(self) (identity, C04)
 
    Stream.  TeX.inputs with one token-list input is one list (front = next token).  A macro instance that was pushed
@@ -49,6 +49,9 @@ Definition s_iftrue : list N := [105; 102; 116; 114; 117; 101].
 Definition s_iffalse : list N := [105; 102; 102; 97; 108; 115; 101].
 Definition s_ifnum : list N := [105; 102; 110; 117; 109].
 Definition s_ifcase : list N := [105; 102; 99; 97; 115; 101].
+Definition s_let : list N := [108; 101; 116].
+Definition s_newcommand : list N := [110; 101; 119; 99; 111; 109; 109; 97; 110; 100].
+Definition s_renewcommand : list N := [114; 101; 110; 101; 119; 99; 111; 109; 109; 97; 110; 100].
 Definition s_text : list N := [35; 116; 101; 120; 116].                        (* "#text" *)
 Definition s_active (c : N) : list N := [97; 99; 116; 105; 118; 101; 58; 58; c]. (* "active::c" *)
 Definition starts_if (n : list N) : bool := match n with 105 :: 102 :: _ => true | _ => false end.
@@ -56,15 +59,18 @@ Definition starts_if (n : list N) : bool := match n with 105 :: 102 :: _ => true
 (* ---- elements (macro instances in the stream) ---- *)
 Definition E_BGROUP : N := 0.  Definition E_EGROUP : N := 1.  Definition E_DEF : N := 2.  Definition E_GDEF : N := 3.
 Definition E_RELAX : N := 4.   Definition E_ELSE : N := 5.    Definition E_FI : N := 6.   Definition E_UNREC : N := 7.
+Definition E_NEWCOMMAND : N := 9.  Definition E_RENEWCOMMAND : N := 10.  Definition E_LET : N := 11.
 Definition elem (cls : N) (name : list N) : tok := Tok (16 + cls) name.
 Definition is_elem (t : tok) : bool := 16 <=? tcat t.
 
 (* ---- meanings and the context ---- *)
-Inductive prim := PBgroup | PEgroup | PDef (global : bool) | PRelax | PElse | PFi | PIftrue | PIffalse | PIfnum | PIfcase.
+Inductive prim := PBgroup | PEgroup | PDef (global : bool) | PRelax | PElse | PFi | PIftrue | PIffalse | PIfnum | PIfcase
+                | PNewcommand (renew : bool) | PLet.
 Inductive meaning :=
 | MDef (args body : list tok)        (* a class made by Context.newdef *)
+| MNew (nargs : nat) (opt : option (list tok)) (body : list tok)   (* a class made by Context.newcommand *)
 | MPrim (p : prim)                   (* a Python macro class of the base context *)
-| MUnrec.                            (* a class generated by Context.__getitem__ on a failed lookup *)
+| MUnrec (k : list N).               (* the class generated by Context.__getitem__ on a failed lookup of k *)
 
 Definition frame := list (list N * meaning).     (* a ContextItem's dict, newest binding first *)
 Record state := { input : list tok;              (* the token buffer *)
@@ -88,7 +94,7 @@ Definition add_local (k : list N) (v : meaning) (s : state) : state :=
   match ups s with f :: r => set_ups s (((k, v) :: f) :: r) | [] => add_global k v s end.
 (* Context.__getitem__ *)
 Definition getitem (k : list N) (s : state) : state * meaning :=
-  match lookup s k with Some v => (s, v) | None => (add_global k MUnrec s, MUnrec) end.
+  match lookup s k with Some v => (s, v) | None => (add_global k (MUnrec k) s, MUnrec k) end.
 (* Context.push() / Context.pop() with no object: every frame above the bottom one is an anonymous group frame here
    (the push(self)/pop(self) pairs of argument-less commands cancel), so pop() removes the top frame if there is one *)
 Definition push_frame (s : state) : state := set_ups s ([] :: ups s).
@@ -239,23 +245,42 @@ Section Invoke.
       end)
     end.
 
-  (* readSequence(string.digits, optspace=True): characters accumulated reversed *)
+  (* readSequence(string.digits, optspace=True): characters accumulated reversed.  Since fixes 076499b / 9658874 the next
+     token is looked at unexpanded: a control sequence (or brace...) whose current meaning is a NewCommand / Definition
+     (/ ParameterCommand / TheCounter: none in this Model) class is expanded ONE step (invoke, push the result back) and the
+     loop looks again; any other one ends the digit run and stays where it is (`name in context` creates nothing).
+     A character token or a macro instance is taken from the stream as it is. *)
   Fixpoint read_sequence (g : nat) (acc : list N) (st : state) : outcome (list N * state) :=
     match g with O => Fuel | S g' =>
-    bind (nx st) (fun r =>
-      match r with
-      | (None, st') => Ret (rev acc, st')
-      | (Some t, st') =>
-          if is_elem t then Ret (rev acc, push_tok t st')
-          else match text1 t with
+    match input st with
+    | [] => Ret (rev acc, st)
+    | t :: r =>
+      if is_elem t then Ret (rev acc, st)
+      else match macro_name t with
+           | Some nm =>
+               match lookup st nm with
+               | Some (MDef a b) =>
+                   match definition_invoke a b r with
+                   | Some i => read_sequence g' acc (set_input st i)
+                   | None => Crash 1
+                   end
+               | Some (MNew n o b) =>
+                   match newcommand_invoke n o b r with
+                   | Some i => read_sequence g' acc (set_input st i)
+                   | None => Crash 1
+                   end
+               | _ => Ret (rev acc, st)
+               end
+           | None =>
+               match text1 t with
                | None => Unsupp 3
                | Some c =>
-                   if (48 <=? c) && (c <=? 57) then read_sequence g' (c :: acc) st'
-                   else if is_space t then Ret (rev acc, st')
-                   else Ret (rev acc, push_tok t st')
+                   if (48 <=? c) && (c <=? 57) then read_sequence g' (c :: acc) (set_input st r)
+                   else if is_space t then Ret (rev acc, set_input st r)
+                   else Ret (rev acc, st)
                end
-      end)
-    end.
+           end
+    end end.
 
   (* TeX.readInteger *)
   Definition read_integer (g : nat) (st : state) : outcome (Z * state) :=
@@ -291,6 +316,8 @@ Section Invoke.
     | PDef false => elem E_DEF s_def | PDef true => elem E_GDEF s_gdef
     | PRelax => elem E_RELAX s_relax | PElse => elem E_ELSE s_else | PFi => elem E_FI s_fi
     | PIftrue => elem 8 s_iftrue | PIffalse => elem 8 s_iffalse | PIfnum => elem 8 s_ifnum | PIfcase => elem 8 s_ifcase   (* never pushed *)
+    | PNewcommand false => elem E_NEWCOMMAND s_newcommand | PNewcommand true => elem E_RENEWCOMMAND s_renewcommand
+    | PLet => elem E_LET s_let
     end.
 
   (* DefCommand.invoke followed by pushToken(obj) *)
@@ -319,6 +346,94 @@ Section Invoke.
       end
     end.
 
+  (* readInternalType's clean-up: tokens are dropped up to and including the \relax it had pushed (its instance, once the
+     number reader has executed it, or the token itself) *)
+  Fixpoint drop_relax (s : list tok) : list tok :=
+    match s with
+    | [] => []
+    | t :: r =>
+      if (if is_elem t then seqb (ttext t) s_relax else match macro_name t with Some n => seqb n s_relax | None => false end)
+      then r else drop_relax r
+    end.
+  Definition plainchar (t : tok) : bool := negb (is_elem t) && match macro_name t with None => true | Some _ => false end.
+
+  (* newcommand.invoke (Base/LaTeX/Definitions.py): args = '* name:cs [ nargs:int ] [ opt:nox ] definition:nox', then
+     Context.newcommand (always global; a name bound to a Python macro other than \relax is left alone), then pushToken(obj) *)
+  Definition newcommand_def (g : nat) (renew : bool) (st : state) : outcome state :=
+    (* '*' modifier: readCharacter('*') after optional spaces *)
+    let st0 := ros st in
+    match input st0 with
+    | [] => Crash 7                                       (* name is None: type(None, ...) raises *)
+    | t0 :: r0 =>
+      if is_elem t0 then Unsupp 7 else
+      let st1 := if seqb (ttext t0) [42] then set_input st0 r0 else st0 in
+      (* name:cs -- one token or group, unexpanded; the first escape-category token of it *)
+      let st2 := ros st1 in
+      match read_token (input st2) with
+      | (None, _) => Crash 7
+      | (Some ntoks, r2) =>
+        if existsb is_elem ntoks then Unsupp 7 else
+        match filter (fun t => tcat t =? CC_ESCAPE) ntoks with
+        | [] => Crash 8                                   (* [].pop(0) *)
+        | nt :: _ =>
+          (* [ nargs:int ]: the group is expanded (identity on character tokens) and read back as a number behind a \relax *)
+          let '(og, r3) := read_optional r2 in
+          let nres : outcome (Z * list tok) :=
+            match og with
+            | None => Ret (0%Z, r3)
+            | Some ds =>
+              if forallb plainchar ds then
+                bind (read_integer g (set_input st2 (ds ++ Tok CC_ESCAPE s_relax :: r3))) (fun rz =>
+                  let '(z, stz) := rz in Ret (z, drop_relax (input stz)))
+              else Unsupp 8
+            end in
+          bind nres (fun rn =>
+          let '(z, r4) := rn in
+          (* [ opt:nox ] *)
+          let '(oo, r5) := read_optional r4 in
+          (* definition:nox *)
+          let '(od, r6) := read_token (read_optional_spaces r5) in
+          let body := match od with Some b => b | None => [] end in
+          let name := ttext nt in
+          let st6 := set_input st2 r6 in
+          let st7 :=
+            match lookup st6 name with
+            | Some (MPrim PRelax) | Some (MDef _ _) | Some (MNew _ _ _) | Some (MUnrec _) | None =>
+                add_global name (MNew (Z.to_nat z) oo body) st6
+            | Some (MPrim _) => st6
+            end in
+          Ret (push_tok (prim_elem (PNewcommand renew)) st7))
+        end
+      end
+    end.
+
+  (* let.invoke: args = 'name:Tok = value:Tok', Context.let(name, value, local=True): a control sequence (or macro instance) as
+     value binds the SAME class under the new name in the top frame (Context.__getitem__ on the value's name, which creates the
+     unrecognized class when there is none); any other token only records a \let for the Tokenizer (.lets), which a
+     token-list input never consults *)
+  Definition let_invoke (st : state) : outcome state :=
+    let st1 := ros st in
+    match input st1 with
+    | [] => Crash 9
+    | nt :: r1 =>
+      let st2 := ros (set_input st1 r1) in
+      match input st2 with
+      | [] => Crash 9
+      | e1 :: r2 =>
+        if is_elem e1 then Unsupp 9 else
+        let st3 := ros (if seqb (ttext e1) [61] then set_input st2 r2 else st2) in
+        match input st3 with
+        | [] => Crash 9
+        | vt :: r3 =>
+          let st4 := set_input st3 r3 in
+          let st5 := if is_elem vt || (tcat vt =? CC_ESCAPE)
+                     then let '(st', cls) := getitem (def_name vt) st4 in add_local (def_name nt) cls st'
+                     else st4 in
+          Ret (push_tok (prim_elem PLet) st5)
+        end
+      end
+    end.
+
   Definition if_invoke (w : bool) (st : state) : outcome state :=
     match tprocess (WBool w) (input st) with Some i => Ret (set_input st i) | None => Crash 2 end.
 
@@ -330,7 +445,14 @@ Section Invoke.
         | Some i => Ret (set_input st i)
         | None => Crash 1
         end
-    | MUnrec => Ret (push_tok (elem E_UNREC nm) st)
+    | MNew nargs opt body =>
+        match newcommand_invoke nargs opt body (input st) with
+        | Some i => Ret (set_input st i)
+        | None => Crash 1
+        end
+    | MPrim (PNewcommand renew) => newcommand_def g renew st
+    | MUnrec k => Ret (push_tok (elem E_UNREC k) st)     (* nodeName is the class name: the name first looked up *)
+    | MPrim PLet => let_invoke st
     | MPrim PBgroup => Ret (push_tok (prim_elem PBgroup) (push_frame st))
     | MPrim PEgroup => Ret (push_tok (prim_elem PEgroup) (pop_frame st))
     | MPrim PRelax => Ret (push_tok (prim_elem PRelax) st)
@@ -406,7 +528,8 @@ Fixpoint run (fuel : nat) (st : state) (acc : list tok) : result :=
 Definition base_frame : frame :=
   [ (s_bgroup, MPrim PBgroup); (s_egroup, MPrim PEgroup); (s_def, MPrim (PDef false)); (s_gdef, MPrim (PDef true));
     (s_relax, MPrim PRelax); (s_else, MPrim PElse); (s_fi, MPrim PFi);
-    (s_iftrue, MPrim PIftrue); (s_iffalse, MPrim PIffalse); (s_ifnum, MPrim PIfnum); (s_ifcase, MPrim PIfcase) ].
+    (s_iftrue, MPrim PIftrue); (s_iffalse, MPrim PIffalse); (s_ifnum, MPrim PIfnum); (s_ifcase, MPrim PIfcase);
+    (s_newcommand, MPrim (PNewcommand false)); (s_renewcommand, MPrim (PNewcommand true)); (s_let, MPrim PLet) ].
 Definition init (i : list tok) : state := {| input := i; ups := []; bottom := base_frame |}.
 
 (* ---- wire ---- *)
@@ -414,8 +537,9 @@ Local Open Scope Z_scope.
 Definition meaning_val (m : option meaning) : val :=
   match m with
   | Some (MDef a b) => VL [VI 0; toks_val a; toks_val b]
+  | Some (MNew n o b) => VL [VI 4; ofNat n; VL (match o with Some x => [toks_val x] | None => [] end); toks_val b]
   | Some (MPrim _) => VL [VI 1]
-  | Some MUnrec => VL [VI 2]
+  | Some (MUnrec _) => VL [VI 2]
   | None => VL [VI 3]
   end.
 Definition names_of (v : val) : option (list (list N)) := match v with VL l => mapM getNs l | _ => None end.
